@@ -42,6 +42,8 @@ fire("alt-patch-before-first", ["C01", "C03"], "compile_alt", E("src/compile.rs"
 silent("alt-patch-then-split", ["C01", "C03", "C06"], E("src/compile.rs", "            if has_next {\n                self.b.add(Insn::Split(pc + 1, usize::MAX));\n            }\n            if last_pc != usize::MAX {\n                self.b.set_split_target(last_pc, pc, true);\n            }", "            if last_pc != usize::MAX {\n                self.b.set_split_target(last_pc, pc, true);\n            }\n            if has_next {\n                self.b.add(Insn::Split(pc + 1, usize::MAX));\n            }"))
 fire("expand-check-zero-needs-unnamed", ["C12"], "EXPAND/check", E("src/expand.rs", "            if num == 0 {\n                Ok(())\n            } else if !regex.named_groups.is_empty() {", "            if num == 0 && regex.named_groups.is_empty() {\n                Ok(())\n            } else if !regex.named_groups.is_empty() {"))
 silent("expand-check-reordered-tests", ["C12", "C05"], E("src/expand.rs", "            if num == 0 {\n                Ok(())\n            } else if !regex.named_groups.is_empty() {\n                Err(Error::CompileError(CompileError::NamedBackrefOnly))\n            } else if num < regex.captures_len() {", "            if num != 0 && !regex.named_groups.is_empty() {\n                Err(Error::CompileError(CompileError::NamedBackrefOnly))\n            } else if num == 0 || num < regex.captures_len() {"))
+fire("push-usize-digit-order", ["C16"], "push_usize", E("src/lib.rs", "        push_usize(s, x / 10);\n        s.push((b'0' + (x % 10) as u8) as char);", "        s.push((b'0' + (x % 10) as u8) as char);\n        push_usize(s, x / 10);"))
+fire("push-usize-threshold", ["C16"], "push_usize", E("src/lib.rs", "    if x >= 10 {\n        push_usize(s, x / 10);", "    if x > 10 {\n        push_usize(s, x / 10);"))
 # ---------------- VM state
 fire("push-nsave-reset", ["C20", "C02"], "State::push", E("src/vm.rs", "            self.nsave = 0;\n            self.trace_stack(\"push\");", "            self.trace_stack(\"push\");"))
 fire("save-logs-new-value", ["C20", "C02"], "State::save", E("src/vm.rs", "        self.oldsave.push(Save {\n            slot,\n            value: self.saves[slot],\n        });", "        self.oldsave.push(Save {\n            slot,\n            value: val,\n        });"))
